@@ -291,6 +291,17 @@ func (mb *Mailbox) Recv(deadline int64) (*Msg, bool) {
 
 func (mb *Mailbox) Len() int { return mb.q.Len() }
 
+// Key is the wait key of the mailbox (for simrt.PauseOn / Notify).
+func (mb *Mailbox) Key() int32 { return mb.q.Key }
+
+// HB creates a happens-before edge with every other task that calls HB:
+// worlds whose tasks share harness state under the run-to-block policy call
+// it before and after every blocking point, which orders them totally (and
+// deliberately takes the race detector out of the picture for that world).
+func HB() { atomic.AddInt32(&hbWord, 1) }
+
+var hbWord int32
+
 // ---- deterministic bulk randomness derived from one tape entry ----
 
 type Rand struct{ s uint64 }
